@@ -1731,7 +1731,11 @@ def c06_transfer_split(env):
         b = model_value(m, B)
         pl = model_value(m, PL)
         # natively at a small frame size: body 60 (frame 64), the model's payload scaled into range
-        probes = [(64, x, mo) for x in (0, 1, 20, 30, 31, 32, 60, 61, 90, 120, 150) for mo in (0, 1)]
+        # every payload length over three frame periods (the frame boundaries -- where the last chunk fills its frame
+        # exactly -- depend on the real serializer's performative sizes, which the encoding abstracts)
+        probes = [(64, x, mo) for x in range(0, 200) for mo in (0, 1)]
+        if 16 <= b <= 4096 and pl <= 3 * b:
+            probes += [(b, x, mo) for x in sorted({max(pl + d, 0) for d in range(-48, 49)}) for mo in (0, 1)]
         cmds = [f"split {fs} {n} 1 {mo}" for fs, n, mo in probes]
 
         def bad(outs):
